@@ -33,6 +33,39 @@ def dts(dt):
     return s
 
 
+_ALIASES = ['b', 'B', 'h', 'H', 'i', 'I', 'l', 'L', 'q', 'Q', 'e', 'f', 'd', 'F', 'D', 'byte', 'ubyte', 'short', 'ushort', 'intc', 'uintc', 'int_', 'uint',
+            'longlong', 'ulonglong', 'half', 'single', 'double', 'csingle', 'cdouble', 'float', 'int', 'complex', 'intp', 'uintp']
+
+
+def dtype_spellings(dt):
+    """Every way of writing dtype `dt` as a dtype argument that NumPy itself resolves to exactly `dt` (same type, same byte
+    order): the dtype object, its explicit string, and - where they denote it - name, type class, one-letter code, '='-prefixed
+    string, C-style aliases and the Python types int / float / complex."""
+    dt = np.dtype(dt)
+    cands = [dt, dt.str, np.dtype(dt.str), dt.str[1:] if dt.itemsize == 1 else dt.str, dt.descr[0][1]]
+    extra = [dt.name, dt.type, dt.char, '=' + dt.str[1:], '|' + dt.str[1:], dt.str[1:], int, float, complex] + _ALIASES
+    for c in extra:
+        try:
+            r = np.dtype(c)
+        except Exception:
+            continue
+        if r == dt and r.str == dt.str:
+            cands.append(c)
+    out, seen = [], set()
+    for c in cands:
+        k = (type(c).__name__, repr(c))
+        if k not in seen:
+            seen.add(k)
+            out.append(c)
+    return out
+
+
+def spell_dtype(dt, k):
+    """The k-th spelling (k any integer) of dtype dt; k == 0 is the dtype object itself."""
+    sp = dtype_spellings(dt)
+    return sp[k % len(sp)]
+
+
 st_type = st.sampled_from(NUMTYPES)
 st_bo = st.sampled_from(BYTEORDERS)
 
